@@ -160,10 +160,18 @@ def install(it, lines, tables, dialect=None, existing_db=False, path="/ghost/in.
         if not isinstance(q, str):
             return
         norm = " ".join(q.split()).upper()
-        if norm.startswith("CREATE TABLE") or "CREATE TABLE FEATURES" in norm:
-            if conns and conns[0].tables_exist:
-                raise sqlite3.OperationalError("table features already exists")
-            conns[0].tables_exist = True
+        if "CREATE TABLE" in norm:
+            # a script or a single statement: each table named is created, or the statement fails on the first that exists
+            import re as _re
+            have = conns[0].tables_exist
+            if have is True:
+                have = conns[0].tables_exist = {"FEATURES", "RELATIONS", "META", "DIRECTIVES", "AUTOINCREMENTS", "DUPLICATES"}
+            elif not have:
+                have = conns[0].tables_exist = set()
+            for ine, t in _re.findall(r"CREATE TABLE (IF NOT EXISTS )?(\w+)", norm):
+                if t in have and not ine:
+                    raise sqlite3.OperationalError("table %s already exists" % t.lower())
+                have.add(t)
         if norm.startswith("INSERT INTO DIRECTIVES"):
             for row in a:
                 tables.directives.append(row[0])
